@@ -441,6 +441,41 @@ def run_real(proto: onnx.ModelProto, specs: list[dict], mode: str, limit: float 
         return "ERR", classify_exc(e), None
 
 
+def run_real_reused(first: onnx.ModelProto, specs: list[dict], limit: float = 6.0, commute: bool = False):
+    """Second use of ONE RewriteRuleSet object: it is applied to `first`, and then — the same object — to the model that
+    came out of that pass (serialized and deserialized again).  Returns the outcome of the second application,
+    ('OK', count, ModelProto) or ('ERR', kind, None); ('ERR', 'firstPass:<kind>', None) if the first application fails."""
+    from onnxscript import ir
+    from onnxscript.rewriter import RewriteRuleSet
+
+    _p = onnx.ModelProto()
+    _p.CopyFrom(first)
+    shared = [0]
+    for s in specs:
+        s["_calls"] = shared
+    rules = [build_rule(s) for s in specs]
+    rs = RewriteRuleSet(rules, commute=commute)
+    try:
+        with time_limit(limit):
+            m1 = ir.serde.deserialize_model(_p)
+            rs.apply_to_model(m1)
+            mid = ir.serde.serialize_model(m1)
+    except BaseException as e:  # noqa: BLE001
+        if isinstance(e, (KeyboardInterrupt, SystemExit)):
+            raise
+        return "ERR", "firstPass:" + classify_exc(e), None
+    shared[0] = 0  # the replacement functions' own call counter (names `one_<call#>`) is the harness's, not the rewriter's
+    try:
+        with time_limit(limit):
+            m2 = ir.serde.deserialize_model(mid)
+            cnt = rs.apply_to_model(m2)
+            return "OK", cnt, ir.serde.serialize_model(m2)
+    except BaseException as e:  # noqa: BLE001
+        if isinstance(e, (KeyboardInterrupt, SystemExit)):
+            raise
+        return "ERR", classify_exc(e), None
+
+
 # --------------------------------------------------------------------------- host models
 
 
@@ -457,6 +492,7 @@ class HostGen:
         self.hist = {}
         self.gaps = False   # some values are named val_<k> (the names the rewriter itself hands out), with gaps
         self.used = set()
+        self.f_overload = ""  # overload of the model-local function `local.f` (what an earlier as_function pass leaves behind)
 
     def name(self, p="t"):
         self.k += 1
@@ -482,6 +518,13 @@ class HostGen:
         self.hist[op] = self.hist.get(op, 0) + 1
         return n
 
+    def f_call(self, x, o):
+        n = self.node("f", [x], [o], domain="local")
+        if self.f_overload:
+            n.overload = self.f_overload
+            self.hist["f_overloaded_call"] = self.hist.get("f_overloaded_call", 0) + 1
+        return n
+
     def nodes(self, avail, n, depth):
         r = self.rng
         avail = list(avail)
@@ -500,7 +543,7 @@ class HostGen:
                 out.append(self.node("Two", [self.pick(avail)], [o, o2], domain="local"))
                 avail.append(o2)
             elif x < 0.85 and self.with_funcs:
-                out.append(self.node("f", [self.pick(avail)], [o], domain="local"))
+                out.append(self.f_call(self.pick(avail), o))
             elif x < 0.88 and self.with_cond and depth < 2:
                 # Loop(M=2, cond=true, v): body (i, cond_in, v_in) -> (cond_out, v_out), reading outer values too
                 vin, cin, it, cout = self.name("lv"), self.name("lc"), self.name("li"), self.name("lo")
@@ -524,13 +567,26 @@ class HostGen:
     def body(self, avail, depth, tag):
         ns, av = self.nodes(avail, self.rng.randint(1, 4), depth)
         res = ns[-1].output[0]
+        if self.rng.random() < 0.2:
+            # an involution applied to an *outer* value (instance for `Neg(Neg(v)) -> v` with v of an enclosing graph,
+            # C07-D11 region), as the body's result or as an interior value
+            a, b = self.name(), self.name()
+            dn = [self.node("Neg", [self.pick(list(avail))], [a]), self.node("Neg", [a], [b])]
+            self.hist["body_double_neg_outer"] = self.hist.get("body_double_neg_outer", 0) + 1
+            if self.rng.random() < 0.5:
+                ns, res = ns + dn, b
+            else:
+                ns = dn + ns + [self.node("Add", [b, res], [self.name()])]
+                res = ns[-1].output[0]
         self.hist["body_d%d" % depth] = self.hist.get("body_d%d" % depth, 0) + 1
         return helper.make_graph(ns, self.name(tag), [], [VT(res)])
 
 
-def gen_host(rng, size: int, with_funcs: bool, with_cond: bool, extra_inits: list[str] = ()):
+def gen_host(rng, size: int, with_funcs: bool, with_cond: bool, extra_inits: list[str] = (), f_overload: str = "",
+             force_f_call: bool = False):
     hg = HostGen(rng, with_funcs, with_cond)
     hg.gaps = rng.random() < 0.35
+    hg.f_overload = f_overload if with_funcs else ""
     inputs = [VT("x"), VT("y")]
     avail = ["x", "y"]
     inits = []
@@ -545,7 +601,14 @@ def gen_host(rng, size: int, with_funcs: bool, with_cond: bool, extra_inits: lis
         inputs.append(helper.make_tensor_value_info("c", TensorProto.BOOL, []))
         inits.append(onnx.numpy_helper.from_array(np.array(2, dtype=np.int64), "M"))
         inits.append(onnx.numpy_helper.from_array(np.array(True), "ctrue"))
+    pre = []
+    if force_f_call and with_funcs:
+        # a call of `local.f` (possibly overloaded) feeding a unary node: an instance for patterns that contain the call
+        fo, uo = hg.name(), hg.name()
+        pre = [hg.f_call(rng.choice(avail), fo), hg.node(rng.choice(UNARY), [fo], [uo])]
+        avail = avail + [fo, uo]
     ns, av = hg.nodes(avail, size, 0)
+    ns = pre + ns
     produced = [o for n in ns for o in n.output]
     outs = [produced[-1]]
     if len(produced) > 2 and rng.random() < 0.4:
@@ -568,7 +631,10 @@ def gen_host(rng, size: int, with_funcs: bool, with_cond: bool, extra_inits: lis
         else:
             fn, _ = fhg.nodes(["a"], rng.randint(1, 4), 0)
             fops = [helper.make_opsetid("", 18)]
-        funcs.append(helper.make_function("local", "f", ["a"], [fn[-1].output[0]], fn, fops))
+        ff = helper.make_function("local", "f", ["a"], [fn[-1].output[0]], fn, fops)
+        if hg.f_overload:
+            ff.overload = hg.f_overload
+        funcs.append(ff)
         if with_aux:
             funcs.append(helper.make_function("aux", "h", ["a"], ["hb"], [helper.make_node("Abs", ["a"], ["hb"])], [helper.make_opsetid("", 18)]))
         tn, tav = fhg.nodes(["a"], rng.randint(2, 4), 0)
@@ -649,6 +715,10 @@ def scope_walk(m: onnx.ModelProto) -> str | None:
         for n in f.node:
             if n.domain not in fd and (n.domain, n.op_type, n.overload) not in fids:
                 return f"function {f.name}: no opset import for domain {n.domain!r}"
+            # every operator outside the default domain is a model-local function here (hosts and rules use no other custom
+            # operators): a call inside a function body must address a function of the model, overload included
+            if n.domain not in ("", "ai.onnx") and (n.domain, n.op_type, n.overload) not in fids:
+                return f"function {f.domain}.{f.name}:{f.overload}: call to undefined function {n.domain}.{n.op_type}:{n.overload}"
 
     def check_calls(g):
         for n in g.node:
